@@ -126,3 +126,9 @@ Total sum of frequencies must be 256
 /*                               ------
                                   256
 */
+
+/* Verification hook (off by default): lets a simulation build override the
+   tuning constants above with a reduced configuration. */
+#if defined(RANDOMX_VERIF) && defined(RANDOMX_VERIF_CONFIG_H)
+#include RANDOMX_VERIF_CONFIG_H
+#endif
